@@ -304,7 +304,9 @@ def run(ctx):
 
     # ---- 3. correspondence: observed call sequences are paths of the extracted protocols --------
     traced = [s for r in results for s in r["steps"]
-              if s["phase"] in ("traced", "parked") and s["kind"] in KIND_PROTO and not s.get("panic")]
+              if s["phase"] in ("traced", "parked") and s["kind"] in KIND_PROTO and not s.get("panic")
+              and len(s["calls"]) <= 120]     # the backtracking matcher is a test oracle: long traces (the
+                                              # 260-row INSERT held open for the park) are left to the S1 oracle
     mm = []
     if traced and ctx.model_ok and tok:
         terms = [calls_term(s) for s in traced]
